@@ -58,11 +58,11 @@ Section Stack.
   (* ... hence the specification of C09 itself, on C09's domain *)
   Corollary crender_spec : forall s e out e',
     crender s e = Ok (out, e') ->
-    SS.fmts_utf8 (cerase e' s) = true -> SS.cls_bom (cerase e' s) = false -> SS.cls_nolit (cerase e' s) = false ->
+    SS.fmts_utf8 (cerase e' s) = true -> SS.cls_nolit (cerase e' s) = false ->
     SS.spec_render SS.same OutOfFuel (cerase e' s) = Ok out.
   Proof.
-    intros s e out e' H U B N. destruct (crender_erase s e out e' H) as [_ R].
-    destruct (R e' (PTL.ext_refl e')) as [_ P]. rewrite <- (Gengo.Proofs.Snippet.render_dom_classes _ U B N). exact P.
+    intros s e out e' H U N. destruct (crender_erase s e out e' H) as [_ R].
+    destruct (R e' (PTL.ext_refl e')) as [_ P]. rewrite <- (Gengo.Proofs.Snippet.render_dom _ U N). exact P.
   Qed.
 
   (* ---- 2b. imports: the tracker after rendering is AddType of the referenced packages, in order, on the tracker
